@@ -374,7 +374,12 @@ def run_unit(name, pid, tier, ev):
     ev['units'].append(uinfo)
     if normal < expected_min:
         out['undecided'].append('unit %s: only %d harnesses ran, expected at least %d (vacuity guard)' % (name, normal, expected_min))
-    # ---------------- concrete playback for failures
+    # ---------------- concrete playback for failures: one counterexample per unit is replayed (each
+    # playback is a full CBMC run); the other failing obligations are listed in the same replay file
+    if len(out['failed']) > 1:
+        first = out['failed'][0]
+        first['also_failed'] = [g['key'] for g in out['failed'][1:]][:60]
+        out['failed'] = [first]
     done = set()
     for f in out['failed']:
         if f['harness'] in done:
@@ -422,7 +427,7 @@ def playback(unit, f, pid):
     path = os.path.join(VERIF, 'replay', '%s-%s-%s.json' % (pid, unit['name'], h))
     rec = {'property': pid, 'unit': unit['name'], 'engine': 'kani', 'harness': f.get('full_name', h),
            'failed_obligation': f['key'], 'diagnostic': f['diagnostic'],
-           'concrete_playback_test': test_src, 'native_replay': None,
+           'concrete_playback_test': test_src, 'native_replay': None, 'also_failed': f.get('also_failed', []),
            'replay_cmd': 'bin/vcheck replay %s' % path}
     if test_src:
         vals = re.findall(r'//\s*(-?\d+[^\n]*)\n\s*vec!\[([^\]]*)\]', test_src)
